@@ -132,6 +132,28 @@ def run(ctx):
                         pipe_full_inline[" ".join(args)] = int(f.get("ran_on_caller", "0"))
                     if b != "debug":
                         ctx.nontriv(("parkburst", b, T, n))
+        # ---- a scheduled closure that schedules a same-type closure and then waits inside the tasking system
+        for T in (2, 3):
+            args = ["nested", str(T), str(ctx.pick(8, 30))]
+            rc, lines, err = run_mode(b, args, timeout=120)
+            ctx.count(2 * int(args[2]))
+            nl = [l for l in lines if l.startswith("NESTED")]
+            if rc != 0:
+                bad("schedule-nested", b, args, "harness rc=%d: %s  [scenario: OUTER scheduled closure (functor Job, heap state + canary) "
+                    "schedules an INNER Job and blocks in %s; last line: %s]"
+                    % (rc, san_summary(err), "AsyncTask<int>::get()" if len(nl) == 0 else "a nested parallel_for", nl[-1] if nl else "-"),
+                    "no sanitizer report: neither closure is released while it runs", err)
+                continue
+            for l in nl:
+                f = kv(l)
+                it = f.get("iters")
+                if not (f.get("completed") == it and f.get("outer") == it and f.get("inner") == it and f.get("outer_done") == it
+                        and f.get("corrupt") == "0"):
+                    bad("schedule-nested", b, args, l, "every OUTER and INNER closure runs exactly once and finds its own heap state / canary intact")
+                elif b != "debug":
+                    ctx.nontriv(("nested", b, T, f.get("wait")))
+            if len(nl) != 2:
+                bad("schedule-nested", b, args, "only %d of 2 result lines" % len(nl), "both wait kinds complete")
         # ---- async()
         args = ["async", str(areps)]
         rc, lines, err = run_mode(b, args)
@@ -263,7 +285,7 @@ def run(ctx):
     ctx.cov["client_scripts"] = sorted(NGETS)
     ctx.rule = ("per backend (TBB, OpenMP, Internal, Debug; ASan+UBSan): schedule() bursts of %s closures owning heap state (exactly-once "
                 "after quiescence, caller idle); async() x %d over int/long string/vector/slow-logging type (+ outstanding futures); "
-                "parkburst (workers parked, 300/1000 pending closures > pipe size); AsyncTask<T> x %d repetitions x 6 client scripts x task durations {0,2,12} ms over 5 result types incl. a "
+                "parkburst (workers parked, 300/1000 pending closures > pipe size); nested (a scheduled closure schedules a same-type closure and waits in AsyncTask::get / parallel_for); AsyncTask<T> x %d repetitions x 6 client scripts x task durations {0,2,12} ms over 5 result types incl. a "
                 "lifetime-instrumented payload whose slot trace is validated by the extracted model; destroy-while-running x %d; "
                 "one-thread schedule. non-trivial = a case with a non-trivially-constructible result type or a task outliving "
                 "the constructor, or a burst > 1" % (bursts, areps, treps, dreps))
@@ -283,7 +305,8 @@ def run(ctx):
         "ORACLES (contract stated as Section hypotheses, measured by the harness): tbb::task_arena::enqueue, tbb::task_group, "
         "detached std::thread, std::packaged_task/std::future, the enkiTS LockLessMultiReadPipe (each written piece popped exactly once)",
         "'eventually' needs a fair OS scheduler and, on the internal backend, at least one worker thread (1-thread case: known finding)",
-        "nested scheduling from inside a scheduled closure is not modelled in the task-object event model",
+        "nested execution of scheduled closures is modelled to depth 1 and checked on 7 shapes only (theorem ..._nested_not_freed_on_stack_instances); "
+        "the harness 'nested' scenario exercises it on the real code",
     ]
     if ctx.thorough():
         ctx.coq_thorough_chk(["C02.Properties", "C02.PropertiesSrc"])
